@@ -35,8 +35,24 @@ VARIABLES l,      \* next line
 mvars == <<l, mem, msize, sto, orig, envv, accts, viol, fired>>
 
 Clauses == {"Result", "RestUnchanged", "Cost", "StackOp", "MemReadBack", "StorageReadBack", "Executes", "FinalMemory",
-            "FinalStorage", "EnvOpsReadOnly"}
+            "FinalStorage", "EnvOpsReadOnly", "StackValidity"}
 AcctOps == {"BALANCE", "EXTCODESIZE", "EXTCODEHASH"}
+
+\* Stack validity (Yellow Paper, exceptional halting): an instruction that removes delta items and adds alpha items executes
+\* on a stack of d items iff delta <= d and d - delta + alpha <= 1024; otherwise the frame halts exceptionally.  k = the n of
+\* DUPn / SWAPn.  The items further down (a program may start on a pre-filled stack) change neither result nor cost.
+StackLimit == 1024
+Delta(op, k) == CASE op \in CompOps -> Arity(op)
+                  [] op = "DUP" -> k          [] op = "SWAP" -> k + 1
+                  [] op \in {"POP", "MLOAD", "SLOAD"} \cup AcctOps -> 1
+                  [] op \in {"MSTORE", "MSTORE8", "SSTORE"} -> 2
+                  [] OTHER -> 0                              \* PUSH, the nullary state-reading opcodes, STOP
+Alpha(op, k) == CASE op \in CompOps \cup {"PUSH", "MLOAD", "SLOAD"} \cup AcctOps -> 1
+                  [] op = "DUP" -> k + 1      [] op = "SWAP" -> k + 1
+                  [] op \in {"POP", "MSTORE", "MSTORE8", "SSTORE", "STOP", "NONE", "FILL"} -> 0
+                  [] OTHER -> 1                              \* the nullary state-reading opcodes
+ValidAt(op, k, d) == Delta(op, k) <= d /\ d - Delta(op, k) + Alpha(op, k) <= StackLimit
+KOf(e) == IF "k" \in DOMAIN e THEN e.k ELSE 0
 Empty == [a \in {} |-> 0]
 
 MonInit == l = 1 /\ mem = Empty /\ msize = 0 /\ sto = Empty /\ orig = Empty /\ envv = Empty /\ accts = Empty /\ viol = {} /\ fired = [c \in Clauses |-> 0]
@@ -125,11 +141,17 @@ StepEv0(e, after) ==
               /\ UNCHANGED <<mem, msize, sto, orig>>
      [] OTHER -> UNCHANGED <<mem, msize, sto, orig, viol, fired>>
 
-StepEv(e, after) == StepEv0(e, after) /\ UNCHANGED <<envv, accts>>
+\* an instruction that executed although the stack did not allow it
+StepEv(e, after) ==
+   /\ UNCHANGED <<envv, accts>>
+   /\ IF ValidAt(e.op, KOf(e), Len(e.b)) THEN StepEv0(e, after)
+      ELSE Judge(e.op, {"StackValidity"}, {"StackValidity"}) /\ UNCHANGED <<mem, msize, sto, orig>>
 
 \* the program ran to its STOP, and what the real memory / storage hold at the end is what the program wrote
 EndEv(e) ==
-   LET okX == e.err = ""
+   LET halt == ~ValidAt(e.op, KOf(e), Len(e.b))      \* the last instruction must halt exceptionally: an error is right
+       okX == ~e.panic /\ (e.err = "" \/ halt)      \* a Go panic is never a proper halt
+       okV == halt => e.err # ""
        okM == /\ \A a \in DOMAIN mem : (IF a + 1 <= Len(e.mem) THEN e.mem[a + 1] ELSE 0) = mem[a]
               /\ \A i \in 1..Len(e.mem) : (i - 1) \notin DOMAIN mem => e.mem[i] = 0
        okS == /\ \A i \in 1..Len(e.sto) : StoRd(sto, e.sto[i][1]) = e.sto[i][2]
@@ -137,9 +159,9 @@ EndEv(e) ==
        \* a straight-line program of computational, stack, memory, storage and state-READING opcodes moves no value:
        \* the balances of the known accounts after it are those at its first instruction
        okB == e.bal0 = e.bal1
-   IN  /\ Judge(e.op, {"Executes", "FinalMemory", "FinalStorage", "EnvOpsReadOnly"},
-                {c \in {"Executes"} : ~okX} \cup {c \in {"FinalMemory"} : okX /\ ~okM} \cup {c \in {"FinalStorage"} : okX /\ ~okS}
-                \cup {c \in {"EnvOpsReadOnly"} : okX /\ ~okB})
+   IN  /\ Judge(e.op, {"Executes", "FinalMemory", "FinalStorage", "EnvOpsReadOnly"} \cup {c \in {"StackValidity"} : halt},
+                {c \in {"Executes"} : ~okX} \cup {c \in {"StackValidity"} : ~okV} \cup {c \in {"FinalMemory"} : e.err = "" /\ ~okM} \cup {c \in {"FinalStorage"} : e.err = "" /\ ~okS}
+                \cup {c \in {"EnvOpsReadOnly"} : e.err = "" /\ ~okB})
        /\ mem' = Empty /\ msize' = 0 /\ sto' = Empty /\ orig' = Empty /\ envv' = Empty /\ accts' = Empty
 
 \* the storage the program's contract was deployed with
